@@ -80,6 +80,10 @@ let () =
             | OutOfBounds t -> pr ("oob " ^ string_of_z t)
           with Miss key -> pr ("oracle-miss " ^ key))
        | "V" :: fmt :: args ->
+         (* the hypothesis of C14_roundtrip_partial, evaluated by the extracted predicate: covered? record size? *)
+         let fb = bytes_of_hex fmt and al = List.map parse_arg args in
+         pr (Printf.sprintf "wf %d %d" (if wf_go fb PLit al then 1 else 0)
+               (List.length fb + 1 + List.length (ser_data fb PLit al)));
          (try
             let t = printf_spec render1 (bytes_of_hex fmt) PLit (List.map parse_arg args) in
             pr (Printf.sprintf "ref %d %s" (List.length t) (hex_of_bytes t))
